@@ -31,7 +31,9 @@ Definition pnth (l : list poly) (i : nat) : poly := nth i l [].
 Definition psum (n : nat) (l : list poly) : poly := fold_left padd l (zeros n).
 
 (* ---- execute_standard: for (a_i, brk_i): acc <- acc + (X^{a_i} - 1) * (acc [x] brk_i) ---- *)
-Definition cggi_step (s a : Z) (acc : poly) : poly := padd acc (xp_minus_one a (pscale s acc)).
+(* s = 0: the product has phase 0 (+ noise) and (X^a - 1) * 0 = 0: nothing is added *)
+Definition cggi_step (s a : Z) (acc : poly) : poly :=
+  if s =? 0 then acc else padd acc (xp_minus_one a (pscale s acc)).
 Definition cggi_standard (b : Z) (av sv : list Z) (lut0 : poly) : poly :=
   fold_left (fun acc (q : Z * Z) => cggi_step (snd q) (fst q) acc) (combine av sv) (zrot b lut0).
 
@@ -47,7 +49,8 @@ Definition chunks {A} (bs : nat) (l : list A) : list (list A) := chunks_exact (l
         acc <- acc + sum_{i in block} (X^{ai_pos} - 1) * (acc [x] brk_i),  ai_pos = (a_i + 2N) & (2N - 1) ---- *)
 Definition cggi_block_step (n : nat) (blk : list (Z * Z)) (acc : poly) : poly :=
   let two_n := 2 * Z.of_nat n in
-  padd acc (psum n (map (fun q : Z * Z => xp_minus_one ((fst q + two_n) mod two_n) (pscale (snd q) acc)) blk)).
+  padd acc (psum n (map (fun q : Z * Z =>
+                          if snd q =? 0 then zeros n else xp_minus_one ((fst q + two_n) mod two_n) (pscale (snd q) acc)) blk)).
 Definition cggi_block (n block : nat) (b : Z) (av sv : list Z) (lut0 : poly) : poly :=
   fold_left (fun acc blk => cggi_block_step n blk acc) (chunks block (combine av sv)) (zrot b lut0).
 
@@ -90,7 +93,8 @@ Definition ext_contrib (n : nat) (a s : Z) (acc : list poly) : list poly :=
       (seq 0 (length acc)).
 
 Definition ext_block_step (n : nat) (blk : list (Z * Z)) (acc : list poly) : list poly :=
-  fold_left (fun (cur : list poly) (q : Z * Z) => map2 padd cur (ext_contrib n (fst q) (snd q) acc)) blk acc.
+  fold_left (fun (cur : list poly) (q : Z * Z) =>
+               if snd q =? 0 then cur else map2 padd cur (ext_contrib n (fst q) (snd q) acc)) blk acc.
 
 Definition cggi_extended (n block : nat) (b : Z) (av sv : list Z) (lutp : list poly) : list poly :=
   fold_left (fun acc blk => ext_block_step n blk acc) (chunks block (combine av sv)) (ext_init n b lutp).
